@@ -233,16 +233,16 @@ func init() {
 		Explanation: "Decides structural necessary conditions of 'tokenization progresses and tracks lines' on the five generated lexers, tm's hand-written skipAction and js's lexer_impl: PROGRESS: on the no-match path an empty token is extended by l.rewind(l.scanOffset). CURSOR: every read l.source[e] is dominated by e < len(l.source) and the scan offset advances only under l.offset < len(l.source). " +
 			"LINECOL: every store to lineOffset equals the offset of the first byte of the current line (0; 1+LastIndexByte(source[:offset],'\\n'); under l.ch=='\\n' the scan offset); functions that bump l.line keep lineOffset in step when the lexer reports columns; every cycle that advances the cursor passes the newline test; rewind subtracts newlines of source[offset:l.offset] when moving back and adds those of source[l.offset:offset] when moving forward. " +
 			"RESET(checkpoint): the backtracking checkpoint is -1 on every edge into the scanning loop, including each goto restart after a skipped token. CODEC(runemap): generated mapRune reads an entry of the compressed rune map only for r.lo <= c < r.hi, the half-open interval lex.CompressedMap fills. " +
-			"Not decided: tiling (needs table semantics), the BOM clause, js's regexp/template/JSX state machine beyond these rules. GUARD(empty-accept) as in C09 (no rule matches the empty string, so every token is non-empty). TYPESTATE(ch-tested): on every path to an overwrite of l.ch by the inlined advance, the current character was compared since it was last set (by a store or by rewind), so a newline under the cursor is never skipped uncounted. FIELDCOV(checkpoint) as in C09: backtracking checkpoints are keyed by target state and accepted rule. GUARD(eoi-cycle): generate() refuses tables with a cycle of end-of-input transitions (the scanners feed EOI without consuming, so only the absence of such a cycle makes them terminate at the end of input).",
-		Rules: []string{"PROGRESS", "CURSOR", "LINECOL", "CODEC(runemap)", "RESET(checkpoint)", "GUARD(empty-accept)", "TYPESTATE(ch-tested)", "FIELDCOV(checkpoint)", "GUARD(eoi-cycle)"},
-		Run:   func(c *Ctx) { rulePROGRESS(c); ruleCURSOR(c); ruleLINECOL(c); ruleRUNEMAP(c); ruleCKRESET(c); ruleEMPTYACCEPT(c); ruleCHTESTED(c); ruleCHECKPOINTKEY(c); ruleEOICYCLE(c) },
+			"Not decided: tiling (needs table semantics), the BOM clause, js's regexp/template/JSX state machine beyond these rules. GUARD(empty-accept) as in C09 (no rule matches the empty string, so every token is non-empty). TYPESTATE(ch-tested): on every path to an overwrite of l.ch by the inlined advance, the current character was compared since it was last set (by a store or by rewind), so a newline under the cursor is never skipped uncounted. FIELDCOV(checkpoint) as in C09: backtracking checkpoints are keyed by target state and accepted rule. GUARD(eoi-cycle): generate() refuses tables with a cycle of end-of-input transitions (the scanners feed EOI without consuming, so only the absence of such a cycle makes them terminate at the end of input). TMPL(field-maintain): in go_lexer.go.tmpl, whenever line/lineOffset is declared, its update at a newline and its recomputation in rewind() are generated too (guard formulas, all truth assignments) - tokenColumn without tokenLine keeps correct columns.",
+		Rules: []string{"PROGRESS", "CURSOR", "LINECOL", "CODEC(runemap)", "RESET(checkpoint)", "GUARD(empty-accept)", "TYPESTATE(ch-tested)", "FIELDCOV(checkpoint)", "GUARD(eoi-cycle)", "TMPL(field-maintain)"},
+		Run:   func(c *Ctx) { rulePROGRESS(c); ruleCURSOR(c); ruleLINECOL(c); ruleRUNEMAP(c); ruleCKRESET(c); ruleEMPTYACCEPT(c); ruleCHTESTED(c); ruleCHECKPOINTKEY(c); ruleEOICYCLE(c); ruleTMPLFIELDMAINT(c) },
 	})
 	register(&Property{
 		ID: "C11",
 		Explanation: "Decides structural necessary conditions of 'generated Go lexers tokenize as specified': AGREE(hash): the keyword hash computed by the generator (gen.stringHash) uses the multiplier and the scan unit (rune in rune mode, byte in bytes mode) of the hash the generated lexer accumulates. LINECOL/CURSOR/PROGRESS as in C12 (positions, line and column of each token). FIELDCOV(checkpoint) + CODEC(lexdfa) writer side as in C09 (the tables the lexer is generated from). " +
 			"RESET(checkpoint): the checkpoint does not survive a restart. CODEC(runemap): generated mapRune and lex.CompressedMap agree that entries cover [lo, hi). " +
-			"Not decided: token sequences as such; byte-mode and large-Unicode-map template branches are not instantiated by any shipped lexer. PAIR(checkpoint): backupRule, backupOffset and backupHash are recorded together. CONSTAGREE(reserved-tokens): canInlineRules skips as many reserved RuleToken entries as the token floor below which a rule prevents inlining (an explicit invalid_token rule is never inlined, so its match is not mistaken for \"nothing matched\"). LINECOL also rejects a line start computed from source[:l.offset] when l.offset is assigned afterwards (rewind). GUARD(eoi-cycle): generate() refuses tables with a cycle of end-of-input transitions (the scanners feed EOI without consuming, so only the absence of such a cycle makes them terminate at the end of input).",
-		Rules: []string{"AGREE(hash)", "LINECOL", "CURSOR", "PROGRESS", "FIELDCOV(checkpoint)", "CODEC(lexdfa)", "PAIR(checkpoint)", "CODEC(runemap)", "RESET(checkpoint)", "CONSTAGREE(reserved-tokens)", "GUARD(eoi-cycle)"},
+			"Not decided: token sequences as such; byte-mode and large-Unicode-map template branches are not instantiated by any shipped lexer. PAIR(checkpoint): backupRule, backupOffset and backupHash are recorded together. CONSTAGREE(reserved-tokens): canInlineRules skips as many reserved RuleToken entries as the token floor below which a rule prevents inlining (an explicit invalid_token rule is never inlined, so its match is not mistaken for \"nothing matched\"). LINECOL also rejects a line start computed from source[:l.offset] when l.offset is assigned afterwards (rewind). GUARD(eoi-cycle): generate() refuses tables with a cycle of end-of-input transitions (the scanners feed EOI without consuming, so only the absence of such a cycle makes them terminate at the end of input). TMPL(field-maintain): in go_lexer.go.tmpl, whenever line/lineOffset is declared, its update at a newline and its recomputation in rewind() are generated too (guard formulas, all truth assignments) - tokenColumn without tokenLine keeps correct columns.",
+		Rules: []string{"AGREE(hash)", "LINECOL", "CURSOR", "PROGRESS", "FIELDCOV(checkpoint)", "CODEC(lexdfa)", "PAIR(checkpoint)", "CODEC(runemap)", "RESET(checkpoint)", "CONSTAGREE(reserved-tokens)", "GUARD(eoi-cycle)", "TMPL(field-maintain)"},
 		Run: func(c *Ctx) {
 			ruleRUNEMAP(c)
 			ruleCKRESET(c)
@@ -255,6 +255,7 @@ func init() {
 			ruleCHECKPOINTPAIR(c)
 			ruleRESERVEDTOKENS(c)
 			ruleEOICYCLE(c)
+			ruleTMPLFIELDMAINT(c)
 		},
 	})
 }
